@@ -57,6 +57,7 @@ pub enum K {
     WeakClone,
     WeakDrop,
     WeakRaw,
+    CloneFrom,
     StoreWeak,
     TryUnwrap,
     MakeMut,
@@ -73,7 +74,7 @@ pub enum K {
 pub const NK: usize = K::_N as usize;
 const ALLK: [K; NK] = [
     K::New, K::Clone, K::Drop, K::Store, K::Take, K::Adopt, K::Unadopt, K::SelfSame, K::UnSelfSame, K::Downgrade, K::Upgrade, K::WeakClone,
-    K::WeakDrop, K::WeakRaw, K::StoreWeak, K::TryUnwrap, K::MakeMut, K::SlotMakeMut, K::GetMut, K::IntoRaw, K::FromRaw, K::IncStrong, K::DecStrong, K::DropValue, K::Noise,
+    K::WeakDrop, K::WeakRaw, K::CloneFrom, K::StoreWeak, K::TryUnwrap, K::MakeMut, K::SlotMakeMut, K::GetMut, K::IntoRaw, K::FromRaw, K::IncStrong, K::DecStrong, K::DropValue, K::Noise,
 ];
 
 #[derive(Clone, Debug)]
@@ -407,6 +408,10 @@ pub fn next_op(rng: &mut Rng, kn: &Knobs, g: &mut GenState) -> Option<Op> {
             K::WeakClone => rng.pick(&v.ws).map(|w| Op::WeakClone { w, d: g.w() }),
             K::WeakDrop => rng.pick(&v.ws).map(|w| Op::WeakDrop { w }),
             K::WeakRaw => rng.pick(&v.ws).map(|w| Op::WeakRaw { w }),
+            K::CloneFrom => match (rng.pick(hs), rng.pick(hs)) {
+                (Some((dst, _)), Some((src, _))) if dst != src => Some(Op::CloneFrom { dst, src }),
+                _ => None,
+            },
             K::StoreWeak => match (rng.pick(&v.ws), rng.pick(hs)) {
                 (Some(w), Some((owner, _))) => Some(Op::StoreWeak { w, owner }),
                 _ => None,
@@ -461,7 +466,16 @@ pub fn next_drain(rng: &mut Rng, kn: &Knobs, g: &mut GenState) -> Option<Op> {
         // is released by make_mut / try_unwrap / into_raw+decrement as well as by drop
         if kn.drain_consuming && rng.chance(1, 3) {
             let n = m(|m| m.phys(o));
-            match rng.below(3) {
+            match rng.below(4) {
+                3 if v.hs.len() > 1 => {
+                    // overwrite it with a clone of another handle (then that one is released later)
+                    let (src, _) = v.hs[rng.below(v.hs.len())];
+                    if src != h {
+                        cands.push(Op::CloneFrom { dst: h, src });
+                    } else {
+                        cands.push(Op::Drop { h });
+                    }
+                }
                 0 if n != 1 => cands.push(Op::MakeMut { h, o2: g.o() }),
                 1 if n == 1 => cands.push(Op::TryUnwrap { h, v: g.v() }),
                 2 => cands.push(Op::IntoRaw { h, r: g.r() }),
